@@ -171,7 +171,7 @@ def doc_literal(text):
     return ', "' + py_repr(text)[1:-1].replace('"', '\\"') + '"'
 
 
-@spec()
+@spec(rec=True, ret='str', reads='tree')
 def method_binding(w, m, cpp_class, prefix, suffix, method_suffix, doc):
     """everything _wrap_method emits for one overload"""
     if callee_cpp(m) == 'serialize' or callee_cpp(m) == 'serializable':
